@@ -3,6 +3,8 @@
 (* the Go type / option set and the specific wrong observation.  "none" = not listed.     *)
 EXTENDS GoGenModel
 
+FirstOf(line) == IF Has(line, "first") THEN line.first ELSE NoFirst
+
 (* JSON names that occur more than once among the candidate fields of a struct (after     *)
 (* flattening its untagged embedded structs) somewhere in T                               *)
 RECURSIVE FlatNames(_, _)
@@ -22,8 +24,10 @@ DupNames(T) == CASE T.k \in {"ptr", "slice", "map"} -> DupNames(T.e)
 
 (* a declared struct that embeds (untagged) a pointer to itself *)
 SelfEmbedding(T) ==
-   \E n \in ReachNames(T) : \E x \in DOMAIN Defs(n).f :
+   \E n \in ReachNames(T) : Defs(n).k = "struct" /\ \E x \in DOMAIN Defs(n).f :
       LET fd == Defs(n).f[x] IN Flattens(fd) /\ fd.t.k = "ptr" /\ fd.t.e = Named(n)
+
+Exporting(opt) == opt \in {"export", "exporttop", "useall_export", "tng_export", "tng_exporttop"}
 
 RECURSIVE StripRootPtr(_)
 StripRootPtr(t) == IF t.k = "ptr" THEN StripRootPtr(t.e) ELSE t
@@ -32,6 +36,10 @@ Last(p) == p[Len(p)]
 AtRef(f) == f.kind = "null_at_ref"
 AtDup(T, f) == f.p # <<>> /\ Last(f.p) \in DupNames(T) /\ f.kind \in {"type", "bound", "format", "null", "null_at_ref"}
 KnownFailure(T, f) == AtRef(f) \/ AtDup(T, f)
+(* F-C18-11: the generator's type table holds what a pointer type got when it was the root of   *)
+(* an earlier call (the root is never nullable); a later call of the same Generator finds it     *)
+(* there for a field / element of that pointer type and the null of a nil pointer is rejected.   *)
+RootPtrReused(Fst, f) == Fst.k # "nofirst" /\ U(Fst).k = "ptr" /\ f.kind = "null"
 
 (* two declared types that reach each other *)
 MutualRec(T) ==
@@ -40,13 +48,21 @@ MutualRec(T) ==
 DupComps(comps) == {comps.k[i] : i \in {i \in DOMAIN comps.k : \E j \in DOMAIN comps.k : j # i /\ comps.v[j] = comps.v[i]}}
 (* some component holds what the generator model (GoGenModel) identifies as the schema of another *)
 (* type: the value of a cycle reference, i.e. the struct in whose field loop the cycle was cut     *)
+(* the reference objects of the generator model whose value may stand under component name k in  *)
+(* the map of the judged call: those of the call itself, and for a map shared with an earlier     *)
+(* call of the same Generator those of that call for the names this call does not store again     *)
+ModelCands(line, k) ==
+   LET st == ModelRun(FirstOf(line), line.T, line.opt).st IN
+   IF k \in CompKeys(line.opt, st) \/ ~(Has(line, "first") /\ line.share) THEN CompCands(line.opt, st, k)
+   ELSE CompCands(line.opt, GenAll(line.first, line.opt).st, k)
+ModelKeys(line) ==
+   CompKeys(line.opt, ModelRun(FirstOf(line), line.T, line.opt).st)
+      \cup (IF Has(line, "first") /\ line.share THEN CompKeys(line.opt, GenAll(line.first, line.opt).st) ELSE {})
 ForeignInstalled(line) ==
-   LET st == GenAll(line.T, line.opt).st IN
    \E i \in DOMAIN line.comps.k :
-      LET cs == CompCands(line.opt, st, line.comps.k[i]) IN
+      LET cs == ModelCands(line, line.comps.k[i]) IN
       /\ line.comps.v[i] \in {c.val : c \in {c \in cs : ~c.own}}
       /\ line.comps.v[i] \notin {c.val : c \in {c \in cs : c.own}}
-Exporting(opt) == opt \in {"export", "exporttop", "useall_export", "tng_export", "tng_exporttop"}
 
 (* F-C18-1 / F-C18-2: a pointer position whose schema is a bare $ref (cycle cut, or       *)
 (* component export): nullable cannot be carried by the reference and the target is not    *)
@@ -65,6 +81,7 @@ ValueClass(line, i, fails, failed) ==
    ELSE IF bothR /\ \A f \in fails : AtRef(f)
         THEN IF Exporting(line.opt) THEN "nullable_lost_behind_component_ref" ELSE "nullable_lost_behind_cycle_ref"
    ELSE IF e.of = e.on /\ \A f \in fails : AtDup(line.T, f) /\ ~AtRef(f) THEN "hidden_embedded_field_overwrites_property"
+   ELSE IF bothR /\ \A f \in fails : RootPtrReused(FirstOf(line), f) THEN "reused_generator_root_pointer_not_nullable"
    ELSE IF Exporting(line.opt) /\ MutualRec(line.T) /\ ForeignInstalled(line) /\ bothR
         THEN "component_overwritten_in_mutual_recursion"
    ELSE "none"
@@ -74,17 +91,46 @@ ValueClass(line, i, fails, failed) ==
 (* is only reached through cycle references (every cut type without component export; the      *)
 (* root type with export but without ExportTopLevelSchema) is looked up under its Go name and   *)
 (* never put into the caller's map: the references to the generated name do not resolve.        *)
-TngMissing(T, opt, missing) ==
-   /\ opt \in {"tng", "tng_export"} /\ missing # {}
-   /\ missing \subseteq {TypeNameOf(opt, n) : n \in IF opt = "tng" THEN ReachNames(T) \cap RecNames
-                                                    ELSE IF StripRootPtr(T).k = "named"
-                                                         THEN {StripRootPtr(T).n} \cap RecNames ELSE {}}
+TngSet(T, opt) ==
+   IF opt \notin {"tng", "tng_export"} THEN {}
+   ELSE {TypeNameOf(opt, n) : n \in IF opt = "tng" THEN ReachNames(T) \cap RecNames
+                                    ELSE IF StripRootPtr(T).k = "named"
+                                         THEN {StripRootPtr(T).n} \cap RecNames ELSE {}}
+TngMissing(T, opt, missing) == missing # {} /\ missing \subseteq TngSet(T, opt)
+(* F-C18-8: with component export every struct below the root (the root too with               *)
+(* ExportTopLevelSchema) becomes a $ref to the component of its name, but NewSchemaRefForValue   *)
+(* (l.143) stores a component only if its schema has properties: a declared struct without a     *)
+(* visible field (struct{}, only unexported fields such as `type Stamp time.Time`, only untagged  *)
+(* fields without UseAllExportedFields) is referred to and never defined.                        *)
+NoProps(n, opt) ==
+   /\ U(Named(n)).k = "struct"
+   /\ LET es == AppendFields(Defs(n), 1, {n}) IN {x \in DOMAIN es : es[x].tagged \/ UsesAllFields(opt)} = {}
+PropertylessSet(T, opt) == {TypeNameOf(opt, n) : n \in {m \in ReachNames(T) : NoProps(m, opt)}}
+PropertylessMissing(T, opt, missing) ==
+   /\ Exporting(opt) /\ missing \cap PropertylessSet(T, opt) # {}
+   /\ missing \subseteq PropertylessSet(T, opt) \cup TngSet(T, opt)
+KnownMissing(T, opt, missing) == TngMissing(T, opt, missing) \/ PropertylessMissing(T, opt, missing)
+(* F-C18-10: a Generator that has generated a type before does not put the components that      *)
+(* call produced into the map of a later call again (its epilogue, l.146-150, cleared the names  *)
+(* and values of the reference objects they are copied from): with a new map the references to   *)
+(* the declared types both calls share dangle (besides whatever dangles for a fresh generator).   *)
+ReuseMissing(Fst, T, opt, missing) ==
+   LET shared == {TypeNameOf(opt, n) : n \in ReachNames(Fst) \cap ReachNames(T)} IN
+   /\ missing \cap shared # {}
+   /\ missing \subseteq shared \cup PropertylessSet(T, opt) \cup TngSet(T, opt)
+(* F-C18-9: generateCycleSchemaRef unwraps a slice / map type to its element without end when    *)
+(* the type is its own element type (type Tree []Tree): the stack overflows (fatal).             *)
 LineClass(line, failed) ==
    IF failed = "generator_died" /\ SelfEmbedding(line.T) THEN "self_embedded_pointer_diverges"
+   ELSE IF failed = "generator_died" /\ SelfContainer(line.T) /\ line.gen = "crash" THEN "self_recursive_container_diverges"
    ELSE IF /\ failed = "references_do_not_resolve_in_component_map"
            /\ line.gen = "ok" /\ CompsWellFormed(line.comps)
            /\ \A s \in AllS(line.S, line.comps) : ~Has(s, "refraw")
-           /\ TngMissing(line.T, line.opt, MissingNames(line.S, line.comps))
-        THEN "typename_generator_component_not_exported"
+        THEN LET missing == MissingNames(line.S, line.comps) IN
+             IF TngMissing(line.T, line.opt, missing) THEN "typename_generator_component_not_exported"
+             ELSE IF PropertylessMissing(line.T, line.opt, missing) THEN "propertyless_struct_component_not_exported"
+             ELSE IF Has(line, "first") /\ ~line.share /\ ReuseMissing(line.first, line.T, line.opt, missing)
+                  THEN "reused_generator_components_not_exported_again"
+             ELSE "none"
    ELSE "none"
 =============================================================================
